@@ -35,7 +35,13 @@ class Conc:
             return enum_index(e)
         if k == "bbconst":
             return e[1]
-        if k in ("discr", "bb", "raw", "ref", "deref"):
+        if k == "discr":
+            v = self.ev(e[1])
+            if isinstance(v, tuple) and v:
+                # Option: None = 0, Some = 1; Result: Ok = 0, Err = 1
+                return {"none": 0, "some": 1, "ok": 0, "err": 1}.get(v[0], v)
+            return v
+        if k in ("bb", "raw", "ref", "deref"):
             return self.ev(e[1])
         if k == "cast":
             return wrap(self.ev(e[2]), e[1])
